@@ -76,6 +76,10 @@ def handle(sp):
             return cdump(fn(*args))
         except Exception:
             return "E"
+    if k == "sigpair":
+        fn = getattr(importlib.import_module("vhelp"), sp["py"])
+        args = [build(a.split()) for a in sp["args"]]
+        return cdump(fn(*args[:sp["na"]])) + " " + cdump(fn(*args[:sp["nb"]]))
     if k == "attr":
         m = importlib.import_module(sp["mod"])
         return cdump(getattr(m, sp["attr"])) + " T"
